@@ -12,6 +12,7 @@ CONSTANTS
   MaxAt = 0
   FaultKinds = {}
   FdFix = TRUE
+  EmptyFix = TRUE
   GenFormats = {"xml", "opl", "pbf"}
   GenComps = {"plain", "gzip", "bzip2"}
   GenScriptLen = 3
